@@ -26,6 +26,7 @@ EXPLANATION = (
     " (R7) numerics of the antichain / min-cost-flow substrate: saturated cut edges are collected by `demand > 0` (not >= 1), the supply exceeds the sum of the demands and the arcs are uncapacitated (no constant 2**32), ignored edges are deduplicated before multiplicities are decremented. "
     "and the bottleneck DP takes min(predecessor value, edge value), updates value and predecessor together and reports the value of the path it reconstructs.  NOT decided: that the answers equal a direct graph search, "
     "antichain maximality, peeling arithmetic."
+    ' (R7, round 3) non-integral weights reach the exact network simplex as fractions.'
 )
 DECIDED = ["caches are written only by their owner, keyed by the query", "queries have no side effect on shared substrate state; cached results are never mutated",
            "substrate graphs are frozen after construction"]
